@@ -51,7 +51,11 @@ LEAN = dict(
         "purity of caller inputs (DataFrame, Data, timepoints, individual parameters, AlgorithmSettings.parameters) is observed by fingerprints on the real objects, not modelled",
     ],
     assumptions=["histories start with a fit (an uninitialised model refuses the other calls)",
-                 "mixture_logistic is left out: mean/mode posterior personalisation aborts on the mock cohort with an unrelated RuntimeError"],
+                 "mixture_logistic is left out: mean/mode posterior personalisation aborts on the mock cohort with an unrelated RuntimeError",
+                 "the table output of estimate (to_dataframe=True / MultiIndex ages) is not requested from the joint model inside histories: it is "
+                 "refused with a pandas ValueError (finding F101, probed on every run)",
+                 "integer identifiers are refused by the personalisation algorithms (AssertionError / LeaspyIndividualParamsInputError): "
+                 "cohorts use string identifiers"],
 )
 
 KIND_CONFIGS = [
@@ -62,7 +66,11 @@ KIND_CONFIGS = [
     ("shared-speed", "shared_speed_logistic", "multi", dict(source_dimension=1)),
     ("logistic-univariate", "logistic", "uni", dict(dimension=1)),
     ("joint", "joint", "joint", dict(source_dimension=1)),
+    ("logistic-diag", "logistic", "multi", dict(dimension=3, source_dimension=1, obs_models="gaussian-diagonal")),
 ]
+# simulate accepts the logistic model only; every configuration of it (sources or none, one noise level or one per feature,
+# a single feature) takes another path through the generation of individual parameters and of the noise
+SIM_KINDS = ("logistic-src", "logistic-scalar-nosrc", "logistic-univariate", "logistic-diag")
 OPS = ["fit", "est", "mean", "mode", "scipy", "sim", "save", "load"]
 READ_ONLY = ("est", "mean", "mode", "scipy", "sim")
 MCMC = ("mean", "mode")
@@ -74,7 +82,8 @@ def gen_sequence(rng, key, length):
     fits = 1
     while len(ops) < length:
         weights = {"fit": 1.0 if fits < 3 else 0.0, "est": 2, "mean": 1.5, "mode": 1.5, "scipy": 2.5,
-                   "sim": 1.5 if key == "logistic-src" else 0.0, "save": 1.0, "load": 1.5 if saved else 0.0}
+                   "sim": 1.5 if key == "logistic-src" else (1.0 if key in SIM_KINDS else 0.0), "save": 1.0,
+                   "load": 1.5 if saved else 0.0}
         r = rng.random() * sum(weights.values())
         for op, w in weights.items():
             r -= w
@@ -83,7 +92,7 @@ def gen_sequence(rng, key, length):
         ops.append(op)
         saved = saved or op == "save"
         fits += op == "fit"
-    if key == "logistic-src" and "sim" not in ops:
+    if key in SIM_KINDS and "sim" not in ops:
         ops.append("sim")
     return ops
 
@@ -98,6 +107,24 @@ class Harness:
         _, self.kind, self.which, self.hyp = cfg
         n_ind = 6 if self.which == "joint" else None
         self.df, self.data = A.cohort(self.which, n_ind=n_ind)
+        self.holes = self.rng2.random() < 0.35
+        if self.holes:
+            # a quarter of the observations missing (the mock cohorts are complete): the readers, the per-individual slices and the
+            # masked likelihood terms then work on nan / padded entries of the caller's objects
+            cols = A.feature_columns(self.df)
+            hole = [[self.rng2.random() < 0.25 for _ in cols] for _ in range(len(self.df))]
+            df = self.df.copy()
+            df[cols] = df[cols].mask(E.np.array(hole))
+            df = df[~df[cols].isna().all(axis=1)]
+            try:
+                data = E.Data.from_dataframe(df, data_type="joint") if self.which == "joint" else E.Data.from_dataframe(df)
+                if len(set(df.index.get_level_values("ID"))) == len(set(self.df.index.get_level_values("ID"))):
+                    self.df, self.data = df, data
+                else:
+                    self.holes = False
+            except Exception:  # noqa
+                self.holes = False
+        chk.tag("cohort_with_missing_values", self.holes)
         self.ids = list(dict.fromkeys(self.df.index.get_level_values("ID")))
         self.model = E.model_factory(self.kind, **self.hyp)
         self.path = os.path.join(tmp, f"{key}.json")
@@ -140,8 +167,39 @@ class Harness:
                 # nested settings that the algorithm completes for itself (annealing.n_iter is derived from the fraction):
                 # the caller's object must not receive the derived values
                 kws["annealing"] = dict(do_annealing=True, n_plateau=2, initial_temperature=3.0)
+            r2 = self.rng2
+            logger = None
+            if algo in ("mean_posterior", "mode_posterior") and r2.random() < 0.4:
+                # other documented options held in nested dictionaries / derived by the algorithm
+                kws["sampler_ind_params"] = dict(acceptation_history_length=r2.choice([2, 5]), adaptive_std_factor=0.2)
+                if r2.random() < 0.5:
+                    kws["n_burn_in_iter"] = r2.choice([0, 3, 11])
+            if algo == "scipy_minimize":
+                # the optimiser's own options: nested dictionaries owned by the caller, handed to scipy as they are; a budget so
+                # small that some individuals do not converge (the convergence report is then built and sent to the logger)
+                how = r2.choice(["default", "default", "no-jacobian", "custom-bfgs", "custom-powell"])
+                if how == "no-jacobian":
+                    kws["use_jacobian"] = False
+                elif how == "custom-bfgs":
+                    kws["custom_scipy_minimize_params"] = {"method": "BFGS", "options": {"gtol": 1e-2, "maxiter": r2.choice([2, 40])}}
+                elif how == "custom-powell":
+                    kws["use_jacobian"] = False
+                    kws["custom_scipy_minimize_params"] = {"method": "Powell", "options": {"xtol": 1e-2, "ftol": 1e-2,
+                                                                                           "maxiter": r2.choice([1, 3])}}
+                if (self.chk.tier == "thorough" and r2.random() < 0.15) or os.environ.get("VERIF_C13_POOL") == "1":
+                    # a pool of worker processes: the per-individual states travel to the workers, the model stays here
+                    kws["n_jobs"] = 2
+                    how += " n_jobs=2"
+                    logger = []          # (the default logger would print from the worker processes)
+                if how.startswith("custom") and r2.random() < 0.5:
+                    kws["custom_format_convergence_issues"] = "{patient_id}: {optimization_result_obj.message}"
+                    logger = []
+                    how += " +format"
+                self.chk.tag("scipy_settings", how + (" +logger" if logger is not None else ""))
             with core.quiet():
                 self.settings_cache[k] = self.E.AlgorithmSettings(algo, **kws)
+            if logger is not None:
+                self.settings_cache[k].logger = logger.append      # documented hook: receives the convergence reports
         return self.settings_cache[k]
 
     # ---- fresh copy ----
@@ -172,7 +230,18 @@ class Harness:
                 model.fit(inp, algorithm_settings=args["settings"])
                 return None
             if op == "est":
-                out = model.estimate(args["tps"], args["ips"])
+                how = args.get("how", "dict")
+                if how in ("mean_traj", "mode_traj"):
+                    # the population trajectories: public read-only calls that work on a clone like estimate does
+                    out = getattr(model, "compute_" + how)(args["tps"])
+                    return A.obj_digest(A.value_digest(out))
+                if how == "traj":
+                    i = next(iter(args["tps"]))
+                    out = model.compute_individual_trajectory(args["tps"][i], args["ips"][i])
+                    return A.obj_digest(A.value_digest(out))
+                out = model.estimate(args["tps"], args["ips"], **({"to_dataframe": True} if how == "to_dataframe" else {}))
+                if isinstance(out, E.pd.DataFrame):
+                    return A.df_digest(out)
                 return A.obj_digest({k: (v.shape, v.dtype.str, v.tobytes()) for k, v in out.items()})
             if op in ("mean", "mode", "scipy"):
                 inp = args["dataset"] if args.get("dataset") is not None else (args["df"] if args["as_df"] else args["data"])
@@ -215,7 +284,35 @@ class Harness:
             ids = [f"e{i}" for i in range(rng.choice([1, 2]))]
             ips = A.random_ips(rng, self.model, ids)
             tps = {i: [rng.uniform(60, 90) for _ in range(rng.randrange(1, 4))] for i in ids}
-            return dict(ips=ips, tps=tps)
+            # the ages in every container the call documents or accepts (all caller-owned): lists, numpy arrays, tuples, one
+            # number, a (ID, TIME) MultiIndex in request order; the table output; the trajectory calls underneath estimate
+            r2 = self.rng2
+            how = r2.choice(["dict", "dict", "array", "array32", "tuple", "scalar", "multiindex", "to_dataframe", "traj", "mean_traj",
+                             "mode_traj"])
+            if self.kind == "joint" and how in ("multiindex", "to_dataframe"):
+                # finding F101 (probed on every run): the table output of estimate is built with the feature names as columns
+                # while the joint model's trajectories carry one more column per event -> ValueError before anything is
+                # returned.  Not a matter of purity: the history keeps the dictionary output so that it can go on.
+                how = "array"
+            np, torch = E.np, E.torch
+            if how == "array":
+                tps = {i: np.array(v, dtype=np.float64) for i, v in tps.items()}
+            elif how == "array32":
+                tps = {i: np.array(v[::-1], dtype=np.float32) for i, v in tps.items()}          # (not sorted either)
+            elif how == "tuple":
+                tps = {i: tuple(v) for i, v in tps.items()}
+            elif how == "scalar":
+                tps = {i: v[0] for i, v in tps.items()}
+            elif how == "multiindex":
+                pairs = [(i, t) for i, v in tps.items() for t in v]
+                r2.shuffle(pairs)
+                tps = E.pd.MultiIndex.from_tuples(pairs, names=["ID", "TIME"])
+            elif how == "traj":
+                tps = {i: np.array(v, dtype=np.float64) for i, v in tps.items()}
+            elif how in ("mean_traj", "mode_traj"):
+                tps = torch.tensor([sorted(next(iter(tps.values())))], dtype=torch.float32)
+            self.chk.tag("estimate_input", how)
+            return dict(ips=ips, tps=tps, how=how)
         if op == "sim":
             self.sim_count = getattr(self, "sim_count", 0) + 1
             table = self.sim_count % 2 == 1          # first a caller-owned table, then a random design, alternately
@@ -247,7 +344,12 @@ class Harness:
             d["settings.seed"] = repr(s.seed)
         if "ips" in args:
             d["individual_parameters"] = A.ip_digest(args["ips"])
-            d["timepoints"] = A.obj_digest(args["tps"])
+            tps = args["tps"]
+            if isinstance(tps, self.E.pd.MultiIndex):
+                tps = ("MultiIndex", list(tps.names), [tuple(x) for x in tps.tolist()], [str(t) for t in tps.dtypes])
+            d["timepoints"] = A.obj_digest(F.deep_fp(tps))          # (arrays and tensors by content, tensors with their version)
+        if "data" in args:
+            d["data (every attribute)"] = A.obj_digest(F.deep_fp(args["data"], depth=6))
         return d
 
 
@@ -343,6 +445,10 @@ def run_history(chk, E, key, ops, case_seed, tmp, edge=None, fps=None, probe_at=
                     if cand:
                         k = H.rng.choice(cand)
                         new = H.rng.choice([5e-4, 2e-4, 9e-4, 250.0])
+                        if not edge and "noise_std" in doc["parameters"] and H.rng2.random() < 0.3:
+                            # the noise level at both ends: the likelihood terms of the personalisations and the noise that
+                            # simulate adds (variance clamped near 0 and 1) are scaled by it
+                            k, new = "noise_std", H.rng2.choice([1e-3, 0.7])
                         if edge and edge[0] in cand:
                             k, new = edge[0], float(edge[1])
                         old_v = doc["parameters"][k]
@@ -589,13 +695,37 @@ def probe_findings(chk, E, tmp):
             chk.note("finding F8 no longer reproduces (scipy_minimize result equal on fitted object and reloaded copy)")
     except Exception as e:
         chk.note(f"F8 probe could not run: {type(e).__name__}: {str(e)[:80]}")
+    # F101: table output of estimate for the joint model
+    try:
+        H = Harness(chk, E, "joint", tmp, 0)
+        with core.quiet():
+            H.model.fit(H.data, "mcmc_saem", n_iter=4, n_burn_in_iter=2, seed=0, progress_bar=False)
+        snap0 = A.state_snapshot(H.model)
+        ips = A.random_ips(H.rng, H.model, ["p0"])
+        try:
+            with core.quiet():
+                H.model.estimate({"p0": [70.0, 75.5]}, ips, to_dataframe=True)
+            chk.note("finding F101 no longer reproduces (estimate(..., to_dataframe=True) of the joint model returns a table)")
+        except ValueError as e:
+            chk.known_finding_reproduces("F101", f"joint model, estimate({{'p0': [70.0, 75.5]}}, ips, to_dataframe=True): ValueError: {str(e)[:100]}")
+        d = A.snapshot_diff(snap0, A.state_snapshot(H.model), H.model)
+        if d["core"] or d["derived_changed"]:
+            chk.impl_failure({"kind": "joint", "ops": ["fit", "est"], "case_seed": 0, "probe": "F101"},
+                             f"the refused table estimate changed the model: {d['core'] + d['derived_changed']}")
+    except Exception as e:
+        chk.note(f"F101 probe could not run: {type(e).__name__}: {str(e)[:80]}")
 
 
 def run(chk: core.Check):
     E = A.env()
     rng = chk.rng
     chk.rule = ("one case = one random call history (first call fit; up to 3 fits; estimate / mean / mode / scipy / simulate / save / load "
-                "with random sub-cohorts given as DataFrame or Data, reused AlgorithmSettings objects) on one object of one model kind; "
+                "with random sub-cohorts given as DataFrame, Data or Dataset, a third of the cohorts with a quarter of the observations "
+                "missing, reused AlgorithmSettings objects with nested options — annealing, sampler tuning, explicit burn-in, the "
+                "optimiser's own options and budget, convergence-report format and logger —, estimate ages as lists / tuples / float64 and "
+                "float32 arrays / one number / MultiIndex / table output and the trajectory calls underneath, simulate on every "
+                "configuration of the logistic model, hand-written xi_std / tau_std / noise_std at the edge) on one object of one model kind "
+                "(seven configurations incl. one noise level per feature); "
                 "distinct by (kind, op sequence); non-trivial when a read-only call happens while the object carries the leftovers of a fit. "
                 "Every estimate / personalize / simulate call is run under the footprint recorder; its recorded history is one more model line.")
     tmp = tempfile.mkdtemp(prefix="c13_")
@@ -615,7 +745,7 @@ def run(chk: core.Check):
         for key in edge_kinds:
             for par, val in ([("xi_std", 5e-4), ("tau_std", 5e-4)] if chk.tier == "thorough" or key == "logistic-src"
                              else [rng.choice([("xi_std", 5e-4), ("tau_std", 2e-4), ("xi_std", 9e-4)])]):
-                ops = ["fit", "save", "load", "scipy", "est", "mean", "mode", "scipy"] + (["sim"] if key == "logistic-src" else [])
+                ops = ["fit", "save", "load", "scipy", "est", "mean", "mode", "scipy"] + (["sim"] if key in SIM_KINDS else [])
                 cases_in.append((key, ops, rng.randrange(10 ** 6), (par, val)))
         cases, patterns, fps = [], [], []
         for key, ops, cs, edge in cases_in:
